@@ -450,7 +450,7 @@ class SingleMarker(SingleMarkerLike[Union[BaseConstraint, VersionConstraint]]):
 
     @property
     def _key(self) -> tuple[object, ...]:
-        return self._name, self._operator, self._value
+        return self._name, self._operator, self._value, self._swapped_name_value
 
     def reduce_by_python_constraint(
         self, python_constraint: VersionConstraint
